@@ -145,6 +145,13 @@ class Curve:
             return F.hex(F.rand(rng)) + " " + F.hex(F.rand(rng)) + " " + F.hex(F.zero)
         if zmode in ("one", "canon"):
             z = F.one
+        elif zmode == "limbs":
+            # z whose STORED (Montgomery) limbs have an all-zero half / a single bit: identity tests that look at part of the words
+            def raw(): return rng.choice([1 << 192, rng.getrandbits(190) << 192, rng.getrandbits(192) | 1, 1 << 352, 1 << 64, (1 << 192) | 1])
+            RINV = pow(RQ, -1, Q)
+            def val(): return (raw() % Q) * RINV % Q
+            z = val() if F is Fq1 else rng.choice([(val(), 0), (0, val()), (val(), val())])
+            if F.is_zero(z): z = F.one
         else:
             z = F.rand(rng)
             while F.is_zero(z): z = F.rand(rng)
